@@ -242,6 +242,14 @@ Definition handle (fixed1 fixed2 : bool) (h : handler) (e : env) (m : msg) : out
 Definition impl_handle := handle false false.
 Definition spec_handle := handle true true.
 
+(* ---------- histories: several messages through the same handler instance ----------
+   None of the event paths changes handler state, so a history is handled message by message;
+   in particular no message's event or forwarded copy may depend on a later message. *)
+Definition handle_history (fixed1 fixed2 : bool) (h : handler) (e : env) (ms : list msg) : list outcome :=
+  map (handle fixed1 fixed2 h e) ms.
+Definition impl_history := handle_history false false.
+Definition spec_history := handle_history true true.
+
 (* ---------- the property's own predicate ---------- *)
 
 Fixpoint beq_list (a b : list bytes) : bool :=
@@ -325,3 +333,22 @@ Fixpoint beq_all {A : Type} (f : A -> A -> bool) (a b : list A) : bool :=
 Definition beq_outcome (a b : outcome) : bool :=
   beq_all beq_ev (o_events a) (o_events b) && beq_all beq_wr (o_writes a) (o_writes b) &&
   Bool.eqb (o_queued a) (o_queued b).
+
+(* what the blocking subscriber of one message of a history saw, and what was written for it:
+   Data() when the subscriber started, Data() when it was released (after the NEXT message had been
+   handled), and the writes of that message's forward callback *)
+Record hobs := mkH { h_start : bytes; h_end : bytes; h_writes : list wr }.
+
+(* one message of a history against the outcome a model gives for it *)
+Definition hist_matches (o : outcome) (x : hobs) : bool :=
+  match o_events o with
+  | [EPM _ d] => beq_bytes (h_start x) d && beq_bytes (h_end x) d
+  | _ => beq_bytes (h_start x) [] && beq_bytes (h_end x) []
+  end && beq_all beq_wr (h_writes x) (o_writes o).
+
+Fixpoint hist_all (os : list outcome) (xs : list hobs) : bool :=
+  match os, xs with
+  | [], [] => true
+  | o :: os', x :: xs' => hist_matches o x && hist_all os' xs'
+  | _, _ => false
+  end.
